@@ -89,6 +89,55 @@ def ref_eval(ast, env):
     return ref_eval_d(ast, env, None)[0]
 
 
+def ref_eval_mag(ast, env):
+    """(value, largest |intermediate| met while evaluating the expression AS WRITTEN): the rounding error of evaluating the
+    user's own expression in doubles is relative to that magnitude, not to the (possibly cancelled) result"""
+    t = ast[0]
+    if t in ("sym", "dt", "const"):
+        v = ref_eval(ast, env)
+        return v, abs(v)
+    if t == "fn":
+        a, m = ref_eval_mag(ast[2], env)
+        v = _fn(ast[1], a, mp.mpf(0))[0]
+        return v, max(m, abs(v))
+    if t == "pow":
+        a, m = ref_eval_mag(ast[1], env)
+        v = ref_eval(["pow", ["const", 0, 1], ast[2]], env) if False else None
+        n = int(ast[2])
+        if n < 0 and abs(a) < SING:
+            raise Singular("pow base")
+        v = a ** n
+        return v, max(m, abs(v))
+    a, ma = ref_eval_mag(ast[1], env)
+    b, mb = ref_eval_mag(ast[2], env)
+    v = ref_eval([t, ["const", 0, 1], ["const", 1, 1]], env) if False else None
+    if t == "add":
+        v = a + b
+    elif t == "sub":
+        v = a - b
+    elif t == "mul":
+        v = a * b
+    else:
+        if abs(b) < SING:
+            raise Singular("denominator")
+        v = a / b
+    return v, max(ma, mb, abs(v))
+
+
+def ast_consts(ast, acc=None):
+    acc = set() if acc is None else acc
+    if ast[0] == "const":
+        acc.add((ast[1], ast[2]))
+    elif ast[0] in ("add", "sub", "mul", "div"):
+        ast_consts(ast[1], acc)
+        ast_consts(ast[2], acc)
+    elif ast[0] == "pow":
+        ast_consts(ast[1], acc)
+    elif ast[0] == "fn":
+        ast_consts(ast[2], acc)
+    return acc
+
+
 def ref_jac(asts, env, wrt_names):
     """rows: outputs in the order given, cols: wrt_names in the order given"""
     return [[ref_eval_d(a, env, w)[1] for w in wrt_names] for a in asts]
